@@ -32,8 +32,9 @@ TStart == /\ Ev("Start") /\ ~exited
                /\ deps[t] \subseteq ok
                \* "finished building": the dependency's terminal report has been made, not merely its command ended
                /\ \A d \in deps[t] : Contains(reported, d)
-               \* a target exists only once its package's BUILD file has been interpreted successfully
-               /\ (t \in DOMAIN pkgOf => pkgOf[t] \in parsed)
+               \* a target exists only once the interpretation of its package's BUILD file has reached it: the package is
+               \* being parsed or has been (targets are registered, and may be built, while the rest of the file is still read)
+               /\ (t \in DOMAIN pkgOf => pkgOf[t] \in (parsing \cup parsed))
                /\ started' = started \cup {t}
           /\ UNCHANGED <<deps, req, expectOK, pkgOf, ended, ok, reported, exited, parsing, parsed, pfailed>>
 TEnd == /\ Ev("End") /\ ~exited
